@@ -56,6 +56,11 @@ CHECKS = {
          "For generated directory trees (nested directories, index files, extension-less / multi-dot / spaced / Unicode / %-containing names) with canary files placed next to the root, two levels up, in a prefix-named sibling and as an outside index.html, the handlers serve_dir (/* and /s/*), serve_as_file_path and the server's directory_handler (cache on/off) are called in-process with: every file by its path (200, exact bytes, Content-Type per an independent extension table), every directory with and without trailing slash (301 to slash form; index.html, else index.htm, else 404), random compositions of up to 5 hostile segments and a targeted grid of 32 400 traversal spellings. No response may contain canary bytes and every 200 body must be the content of a file inside the root.",
          "Trusts the canary construction and the in-process call convention (uri = route prefix + path, as the router would dispatch). Symlinks excluded.",
          "DESIGN.md §5 C06"),
+ "C17": ("exploration",
+         "model-based stateful testing: proptest operation sequences against a reference model of users/sessions, with a full token sweep after every step; auth route driven over loopback",
+         "Sequences of up to 60 operations over up to 5 users (create/remove user, verify with right/wrong/other/unknown credentials, create_session with default / already-expired / long lifetime, refresh, invalidate, invalidate_user_session, get_uid_by_token, exists, and requests to a with_auth_route route of a real App on loopback with no / garbage / any ever-issued token), with and without pepper and with default or zero refresh lifetime, are run against AuthProvider<Vec<User>> and a reference model. Every return value is predicted by the model, and after every step every token ever issued must authenticate exactly its owner iff its session is live; tokens must be 64 lower-case hex digits and never repeat.",
+         "Trusts the reference model; only lifetimes 0 and >=3600 s are used so no expectation depends on the clock.",
+         "DESIGN.md §5 C17"),
 }
 
 NOT_YET = "check not built yet (work in progress; see DESIGN.md §5 for the intended design)"
